@@ -139,6 +139,10 @@ type Prop[C any] struct {
 	// NoPanicFailure: panics inside Check are re-raised instead of reported
 	// (used when the panic would be a harness bug).
 	PanicIsHarnessBug bool
+	// WholeCheckLimit > 0: the oracle of this property does negligible work of its own, so a Check that does
+	// not return within the limit is a library call that does not return (reported as hang/check:<ID> after
+	// the driver has confirmed it by re-running the journaled case alone).
+	WholeCheckLimit time.Duration
 }
 
 // ReplayFile is the on-disk form of a case.
@@ -272,6 +276,10 @@ func (r *runner[C]) safeCheck(c C) (f *Failure) {
 			}
 		}()
 	}
+	if r.p.WholeCheckLimit > 0 {
+		LibT("check:"+r.p.ID, r.p.WholeCheckLimit, func() { f = r.p.Check(c, r.cx) })
+		return f
+	}
 	return r.p.Check(c, r.cx)
 }
 
@@ -316,35 +324,45 @@ var (
 	libMu       sync.Mutex
 	libName     string
 	libSince    time.Time
+	libLimit    time.Duration
 	libWatchdog sync.Once
 )
 
 const libHangLimit = 60 * time.Second
 
-func Lib(name string, fn func()) {
+func Lib(name string, fn func()) { LibT(name, libHangLimit, fn) }
+
+// LibT is Lib with its own limit.  Calls nest: the inner call takes over the watchdog and hands it back.
+func LibT(name string, limit time.Duration, fn func()) {
+	if sc := os.Getenv("VERIF_WATCHDOG_SCALE"); sc != "" { // e.g. 0.05 when testing the watchdog itself, 4 on a busy machine
+		if v, err := strconv.ParseFloat(sc, 64); err == nil && v > 0 {
+			limit = time.Duration(float64(limit) * v)
+		}
+	}
 	libWatchdog.Do(func() {
 		go func() {
 			for {
 				time.Sleep(time.Second)
 				libMu.Lock()
-				n, since := libName, libSince
+				n, since, lim := libName, libSince, libLimit
 				libMu.Unlock()
-				if n != "" && time.Since(since) > libHangLimit {
+				if n != "" && time.Since(since) > lim {
 					if path := os.Getenv("VERIF_INFLIGHT"); path != "" {
 						os.WriteFile(path+".libhang", []byte(n), 0o644)
 					}
-					fmt.Printf("LIBRARY-CALL-HANG %s did not return within %v\n", n, libHangLimit)
+					fmt.Printf("LIBRARY-CALL-HANG %s did not return within %v\n", n, lim)
 					os.Exit(3)
 				}
 			}
 		}()
 	})
 	libMu.Lock()
-	libName, libSince = name, time.Now()
+	pn, ps, pl := libName, libSince, libLimit
+	libName, libSince, libLimit = name, time.Now(), limit
 	libMu.Unlock()
 	defer func() {
 		libMu.Lock()
-		libName = ""
+		libName, libSince, libLimit = pn, ps, pl
 		libMu.Unlock()
 	}()
 	fn()
